@@ -155,7 +155,8 @@ func (rd *reader) skipLoop(rule string) {
 	text, bin := c.P.ConstInt("TextMessage"), c.P.ConstInt("BinaryMessage")
 	ok, why := true, "a reader is returned only under [frameType == TextMessage || frameType == BinaryMessage] with a fresh messageReader installed"
 	nRet := 0
-	c.explore(rule, rd.nextReader, core.Opts{Unroll: 0, RecordLoads: true, Inline: rd.inl()}, func(p *core.Path) {
+	isDataFn := c.fn("isData")
+	c.explore(rule, rd.nextReader, core.Opts{Unroll: 0, RecordLoads: true, Inline: rd.inl(), Pure: c.pureSet("isControl", "isData")}, func(p *core.Path) {
 		if p.End != core.EndReturn || len(p.Results) != 3 || p.Results[1].IsNil() {
 			return
 		}
@@ -172,7 +173,10 @@ func (rd *reader) skipLoop(rule string) {
 		}
 		ft := p.X.ExtractOf(adv.Result, 0, nil)
 		isData := hasLit(p, len(p.Lits), true, func(t *core.Term) bool { return isEqConst(t, text, func(x *core.Term) bool { return x == ft }) }) ||
-			hasLit(p, len(p.Lits), true, func(t *core.Term) bool { return isEqConst(t, bin, func(x *core.Term) bool { return x == ft }) })
+			hasLit(p, len(p.Lits), true, func(t *core.Term) bool { return isEqConst(t, bin, func(x *core.Term) bool { return x == ft }) }) ||
+			hasLit(p, len(p.Lits), true, func(t *core.Term) bool {
+				return t.Kind == core.KApp && t.Ref == interface{}(isDataFn) && len(t.Args) == 1 && t.Args[0] == ft
+			})
 		if !isData {
 			ok, why = false, "NextReader can return a reader for a frame that is neither text nor binary (return at "+c.P.Pos(p.Ret.Pos())+")"
 		}
